@@ -10,6 +10,9 @@ checks = {
  "C07": ("exploration", "exhaustive enumeration of all ordered pairs of a boundary grid on the real interpreter against a math/big oracle",
          "every ordered pair of a boundary grid over int64/uint64/char/float64 (quick 169 values, thorough 1030: +-2^k, 2^k+-1, float neighbours, NaN, Inf, +-0, subnormals) under all 6 comparison operators, hash lookup and + - * / mod is evaluated on the real interpreter and compared with an exact oracle",
          "trusts the math/big / Go fixed-width oracle; values outside the structured grid are not explored; pairs the property leaves unspecified are only checked for no-panic", "§3 C07"),
+ "C01": ("exploration", "small-scope exhaustive enumeration of source texts (token strings, ill-typed calls, single-token mutations of every corpus form, nesting families, declarations followed by a new interpreter) through every script-facing entry point of the real library and the command-line tool; oracle = returns a value or an error",
+         "every string of <=3 (thorough 4) tokens over a 60-token alphabet x 9 wrappers through EvalString, LoadString+Run, the REPL line path and the parser; every bound name, macro and special form x all argument vectors of length 0..2 (thorough 3) over 24 value/form kinds; every top-level form of the 111 corpus scripts under every prefix, single-token deletion, duplication, neighbour swap and replacement by 8 (thorough 18) tokens, evaluated after the forms before it; 31 nesting families to depth 1000 (thorough 20000); 9 declaration routes x every bound/reserved name followed by construction of the next interpreter; hand list + alphabet through zygo -c / stdin / script file. No Go panic may escape, no process may die, no call may return (nil, nil), and every call returns within 20 s unless the 200000-step VM budget ran out",
+         "mutation of the corpus is bounded to one token edit per form (the property's 'unbounded mutation' is not reachable by enumeration); outside-world functions and the minutes-long debug dump are stubbed; out-of-memory is not explored; calls that wait on channels are counted, not judged", "§3 C01"),
  "C08": ("exploration", "small-scope exhaustive enumeration of every bound name and special form x canary argument vectors x call routes on real sandboxed interpreters and on cmd/zygo -sandbox; oracle = canary files, canary environment variable and secrets unchanged/unseen",
          "configurations {NewZlispSandbox(), sandbox + StandardSetup(), zygo -sandbox -c} x every name the interpreter itself reports as bound (so an added primitive is seen) + the compiler's special forms + setup macros x all argument vectors of length 0..2 (thorough 3) over a 9-item canary menu x 5 (bare) / 9 (standard) call routes incl. alias, apply, eval, macros, eval at expansion time in a duplicated interpreter; every outside-world primitive of the full interpreter is also reached for through names computed at run time; after every call the canary directory must be byte-identical, the canary variable unchanged, no secret in value or stdout",
          "effects without a canary (network, clocks) are not judged; calls that block >4 s are counted, not judged; bounded argument vectors", "§3 C08"),
